@@ -24,6 +24,7 @@ type frame struct {
 	top      bool
 	entry    *State // state at entry of an inlined callee (old() in its loop invariants)
 	anchors  map[ssa.Instruction]string
+	fvRoles  []string // role (field name) of each free variable of a bound-method closure
 }
 
 type inEdge struct {
@@ -48,6 +49,8 @@ func (vc *VC) execFunction(fn *ssa.Function, args []Val, freeVars []Val, st *Sta
 	fr := &frame{fn: fn, vals: map[ssa.Value]Val{}, id: vc.cellSeq, freeVars: freeVars, depth: depth, prefix: prefix, params: map[string]Val{}, top: depth == 0}
 	fr.loops = findLoops(fn)
 	fr.contract = vc.E.DB.Contracts[FuncKey(fn)]
+	fr.fvRoles = vc.pendingRoles
+	vc.pendingRoles = nil
 	for i, p := range fn.Params {
 		if i < len(args) {
 			fr.vals[p] = args[i]
@@ -526,6 +529,7 @@ func (vc *VC) execInstr(fr *frame, st *State, ins ssa.Instruction) {
 		fv := &FuncVal{Fn: fn}
 		for _, b := range x.Bindings {
 			fv.Bindings = append(fv.Bindings, vc.operand(fr, st, b))
+			fv.Roles = append(fv.Roles, roleField(b))
 		}
 		fr.vals[x] = Val{K: VScalar, T: vc.newRef(st, "closure"), Fn: fv}
 	case *ssa.Lookup:
